@@ -8,7 +8,7 @@
 //!                                                                     not accepted, (cli=true) the real CLI writes nothing
 use crate::docgen::{family_of, Family, Obj};
 use crate::env::{self, Mode};
-use crate::ledger::{self, BKind, Doc, Fault, Konst, LeafSpec};
+use crate::ledger::{self, BKind, Doc, DocOpts, Fault, Konst, LeafSpec};
 use crate::propgen::{Fate, Record};
 use crate::rng::Rng;
 use crate::sexp::{atom, boolean, list, node, num, st, Sexp};
@@ -24,6 +24,9 @@ pub struct C04 {
 
 impl C04 {
     pub fn new() -> Self {
+        // build the CLI (a no-op when it is fresh) before any case is answered, so that the build time is never charged to
+        // the per-case watchdog
+        let _ = env::cli_binary();
         C04 { tm: env::load_type_map_with(env::adversarial_classes()) }
     }
 }
@@ -91,6 +94,12 @@ pub fn gen_clean(rng: &mut Rng) -> (Obj, Vec<Record>) {
                 ledger.retain(|r| r.object != id);
                 o.bindings.push(("separator".into(), v.into()));
                 ledger.push(Record { object: id, lhs: "separator".into(), fate: Fate::Const { tag: "separator".into(), text: v.into() } });
+            } else if !o.bindings.is_empty() && !o.bindings.iter().any(|(l, _)| l == "separator") && rng.chance(1, 6) {
+                // `separator` next to other bindings: not a static separator; although constant it is excluded from the
+                // .ui and left unevaluated, so the support header must set it (and reject mode must refuse the document)
+                let v = if rng.chance(2, 3) { "true" } else { "false" };
+                o.bindings.push(("separator".into(), v.into()));
+                ledger.push(Record { object: o.id.clone().unwrap(), lhs: "separator".into(), fate: Fate::Const { tag: "header-const".into(), text: v.into() } });
             }
         }
         for c in &mut o.children {
@@ -100,7 +109,49 @@ pub fn gen_clean(rng: &mut Rng) -> (Obj, Vec<Record>) {
     add_separators(rng, &mut root, &mut ledger);
     let mut counter = 0;
     enrich(rng, &mut root, &mut ledger, &mut counter);
+    // a return type annotation on a handler function is accepted with a WARNING ("return type is ignored")
+    fn annotate(rng: &mut Rng, o: &mut Obj) {
+        for (l, r) in &mut o.bindings {
+            if l.starts_with("on") && r.starts_with("function(") && rng.chance(1, 4) {
+                if let Some(p) = r.find(") {") {
+                    r.replace_range(p..p + 3, "): void {");
+                }
+            }
+        }
+        for c in &mut o.children {
+            annotate(rng, c);
+        }
+    }
+    annotate(rng, &mut root);
     (root, ledger)
+}
+
+/// After bindings were removed: a `separator` binding that became the action's only binding is a static separator (or the
+/// F18 construct), one that has company must be set by the header.
+pub fn normalise_separators(root: &Obj, records: &mut [Record]) {
+    for o in root.pre_order() {
+        if let (Some(id), Some((_, v))) = (&o.id, o.bindings.iter().find(|(l, _)| l == "separator")) {
+            let tag = if o.bindings.len() == 1 { "separator" } else { "header-const" };
+            for r in records.iter_mut().filter(|r| &r.object == id && r.lhs == "separator") {
+                r.fate = Fate::Const { tag: tag.into(), text: v.clone() };
+            }
+        }
+    }
+}
+
+/// document-level options: a quarter of the documents import with a version (WARNING "import version is ignored")
+pub fn gen_opts(rng: &mut Rng) -> DocOpts {
+    DocOpts { import_version: rng.chance(1, 4) }
+}
+
+/// does the printed document make the translator emit a warning?
+pub fn has_warning_construct(root: &Obj, opts: DocOpts) -> bool {
+    opts.import_version || root.pre_order().iter().any(|o| o.bindings.iter().any(|(l, r)| l.starts_with("on") && r.contains("): void {")))
+}
+
+/// does the document hold a constant binding which only the support header can set (`separator` next to other bindings)?
+pub fn has_header_const(records: &[Record]) -> bool {
+    records.iter().any(|r| matches!(&r.fate, Fate::Const { tag, .. } if tag == "header-const"))
 }
 
 /// does the document contain an action whose only binding is `separator: false` (finding F18)?
@@ -108,7 +159,7 @@ pub fn has_separator_false_only(root: &Obj) -> bool {
     root.pre_order().iter().any(|o| o.bindings.len() == 1 && o.bindings[0].0 == "separator" && o.bindings[0].1 == "false")
 }
 
-pub const FAULT_KINDS: usize = 22;
+pub const FAULT_KINDS: usize = 26;
 
 struct Target<'a> {
     idx: usize,
@@ -129,11 +180,13 @@ fn targets(root: &Obj) -> Vec<Target<'_>> {
 }
 
 /// Plants fault `kind` at a random applicable object; `None` if the document has no applicable object.
-pub fn plant_fault(rng: &mut Rng, root: &Obj, kind: usize) -> Option<(Obj, Fault)> {
+/// The first fault of the result is the primary one; kinds that plant several bindings return one `Fault` per binding.
+pub fn plant_fault(rng: &mut Rng, root: &Obj, kind: usize) -> Option<(Obj, Vec<Fault>)> {
     let ts = targets(root);
     let has = |o: &Obj, l: &str| o.bindings.iter().any(|(ll, _)| ll == l || ll.starts_with(&format!("{l}.")));
     let is_sep = |o: &Obj| o.bindings.iter().any(|(l, _)| l == "separator");
     let widgetish = |o: &Obj| matches!(family_of(&o.class), Family::Widget | Family::Menu) && o.class != "QButtonGroup";
+    let is_view = |o: &Obj| matches!(o.class.as_str(), "QTableView" | "QTreeView");
     let base = LeafSpec::default();
     let all = (true, true, true);
     // (name, lhs, rhs, spec, message, reported, flags(map, att, unresolved, unknown type), applicable)
@@ -160,6 +213,10 @@ pub fn plant_fault(rng: &mut Rng, root: &Obj, kind: usize) -> Option<(Obj, Fault
         18 => ("negative-layout-index", "QLayout.row".into(), "-1".into(), LeafSpec { range_ok: false, readable: false, writable: false, ..base }, "negative row is not allowed", all, (false, false, false, false), Box::new(|t| t.parent.map(|p| p.class == "QGridLayout").unwrap_or(false) && !has(t.o, "QLayout.row"))),
         19 => ("duplicated-attached-binding", String::new(), String::new(), base.clone(), "duplicated binding", all, (false, true, false, false), Box::new(|t| t.parent.map(|p| family_of(&p.class) == Family::Layout).unwrap_or(false) && t.o.bindings.iter().any(|(l, _)| l.starts_with("QLayout.")))),
         20 => ("faulty-binding-on-separator", "text".into(), "42".into(), LeafSpec { konst: Konst::Fail, ret_ok: false, ..base }, "expression type mismatch", all, (false, false, false, false), Box::new(|t| t.o.bindings.len() == 1 && t.o.bindings[0].0 == "separator" && t.o.bindings[0].1 == "true")),
+        21 => ("dynamic-header-member", "HEADER.visible".into(), "srcCheck.checked".into(), LeafSpec { konst: Konst::Dyn, ..base }, "nested dynamic binding is not supported", all, (false, false, false, false), Box::new(|t| is_view(t.o) && !t.o.bindings.iter().any(|(l, _)| l.ends_with(".visible")))),
+        22 => ("handler-in-object-map", "HEADER.onSectionClicked".into(), "function(i: int) {}".into(), LeafSpec { enters: false, konst: Konst::Dyn, ..base }, "attached/nested/gadget callback is not supported", all, (false, false, false, false), Box::new(|t| is_view(t.o))),
+        23 => ("handler-in-gadget-map", "font.onFoo".into(), "srcEdit.clear()".into(), LeafSpec { enters: false, konst: Konst::Dyn, ..base }, "unknown signal of class 'QFont'", all, (false, false, false, false), Box::new(|t| widgetish(t.o))),
+        24 => ("handler-in-attached-map", "QLayout.onFoo".into(), "srcEdit.clear()".into(), LeafSpec { enters: false, konst: Konst::Dyn, readable: false, writable: false, ..base }, "unknown signal of class 'QLayoutAttached'", all, (false, false, false, false), Box::new(|t| t.parent.map(|p| family_of(&p.class) == Family::Layout).unwrap_or(false))),
         _ => ("unknown-property-on-action-or-spacer", "noSuchProperty".into(), "1".into(), LeafSpec { enters: false, ..base }, "unknown property of class", all, (false, false, false, false), Box::new(|t| matches!(family_of(&t.o.class), Family::Action | Family::Spacer))),
     };
     // never touch the dynamic-expression sources (other bindings read them) and keep static separators static
@@ -191,6 +248,25 @@ pub fn plant_fault(rng: &mut Rng, root: &Obj, kind: usize) -> Option<(Obj, Fault
         lhs = l;
         rhs = r;
     }
+    // several handlers in one map: every one of them must be diagnosed
+    let mut extra: Vec<(String, String)> = vec![];
+    if (22..=24).contains(&kind) {
+        let more: &[(&str, &str)] = match kind {
+            22 => &[("HEADER.onSectionDoubleClicked", "srcEdit.clear()"), ("HEADER.onGeometriesChanged", "{ srcEdit.clear() }")],
+            23 => &[("font.onBar", "function() {}"), ("font.onBaz", "srcEdit.selectAll()")],
+            _ => &[("QLayout.onBar", "function() {}"), ("QLayout.onBaz", "srcEdit.selectAll()")],
+        };
+        for (l, r) in more.iter().take(rng.below(3)) {
+            extra.push(((*l).to_owned(), (*r).to_owned()));
+        }
+    }
+    if lhs.starts_with("HEADER.") {
+        let h = if t.o.class == "QTreeView" { "header" } else { *rng.pick(&["horizontalHeader", "verticalHeader"]) };
+        lhs = lhs.replace("HEADER", h);
+        for e in &mut extra {
+            e.0 = e.0.replace("HEADER", h);
+        }
+    }
     let mut new_root = root.clone();
     fn nth<'a>(o: &'a mut Obj, n: &mut usize) -> Option<&'a mut Obj> {
         if *n == 0 {
@@ -210,8 +286,16 @@ pub fn plant_fault(rng: &mut Rng, root: &Obj, kind: usize) -> Option<(Obj, Fault
         target.class = "NopeType".into();
     } else {
         target.bindings.push((lhs.clone(), rhs.clone()));
+        for e in &extra {
+            target.bindings.push(e.clone());
+        }
     }
-    Some((new_root, Fault { name, obj: idx, lhs, rhs, spec, map_fault: flags.0, att_fault: flags.1, att_unresolved: flags.2, unknown_type: flags.3, message, reported }))
+    let mk = |lhs: String, rhs: String| Fault { name, obj: idx, lhs, rhs, spec: spec.clone(), map_fault: flags.0, att_fault: flags.1, att_unresolved: flags.2, unknown_type: flags.3, message, reported };
+    let mut faults = vec![mk(lhs, rhs)];
+    for (l, r) in extra {
+        faults.push(mk(l, r));
+    }
+    Some((new_root, faults))
 }
 
 pub fn tables_of(doc: &Doc) -> Vec<Sexp> {
@@ -248,6 +332,21 @@ pub fn fault_sexp(doc: &Doc, f: &Fault, cli: bool) -> Sexp {
     node("fault", vec![st(f.name), num(s), num(e), st(f.message), boolean(f.reported.0), boolean(f.reported.1), boolean(f.reported.2), boolean(cli)])
 }
 
+/// ranges of the additional planted bindings: `(also (start end "message")…)`
+pub fn also_sexp(doc: &Doc, faults: &[Fault]) -> Sexp {
+    node(
+        "also",
+        faults
+            .iter()
+            .skip(1)
+            .map(|f| {
+                let (s, e) = doc.bindings.iter().rev().find(|b| b.obj == f.obj && b.lhs == f.lhs && b.rhs == f.rhs).map(|b| b.range).unwrap();
+                list(vec![num(s), num(e), st(f.message)])
+            })
+            .collect(),
+    )
+}
+
 impl Stream for C04 {
     fn generate(&self, seed: u64, thorough: bool) -> Vec<Case> {
         let mut cases = vec![];
@@ -255,23 +354,46 @@ impl Stream for C04 {
         for k in 0..n {
             let mut rng = Rng::fork(seed, "c04", k as u64);
             let (root, records) = gen_clean(&mut rng);
-            let doc = Doc::build(&root, &records, &[]);
+            let opts = gen_opts(&mut rng);
+            let doc = Doc::build_opts(&root, &records, &[], opts);
             let mut labels = vec![format!("objects{}", doc.objs.len() / 10 * 10), format!("bindings{}", doc.bindings.len() / 20 * 20), "clean".to_string()];
             if has_separator_false_only(&root) {
                 labels.push("separator-false-only".into());
             }
+            let warns = has_warning_construct(&root, opts);
+            if warns {
+                labels.push("with-warning".into());
+            }
+            if has_header_const(&records) {
+                labels.push("header-const".into());
+            }
+            // the real CLI on a sample of clean documents (exit 0, outputs = in-process outputs), warnings preferred
+            let cli_clean = if warns { k % 12 == 3 } else { k % 60 == 3 };
             let mut args = tables_of(&doc);
             args.push(fates_sexp(&doc));
-            cases.push(Case { kind: "oracle", labels: labels.clone(), request: node("c04-ledger", args) });
+            args.push(node("cli", vec![boolean(cli_clean)]));
+            let mut l1 = labels.clone();
+            if cli_clean {
+                l1.push("cli".into());
+            }
+            cases.push(Case { kind: "oracle", labels: l1, request: node("c04-ledger", args) });
             cases.push(Case { kind: "model", labels, request: doc.request(Mode::Generate) });
             // the same document with one fault
             let kind = (k + rng.below(3) * 7) % FAULT_KINDS;
-            if let Some((froot, fault)) = plant_fault(&mut rng, &root, kind) {
-                let fdoc = Doc::build(&froot, &records, std::slice::from_ref(&fault));
-                let labels = vec![format!("fault:{}", fault.name), format!("at:{}", fdoc.objs[fault.obj].class)];
-                let cli = k % 12 == 0;
+            if let Some((froot, faults)) = plant_fault(&mut rng, &root, kind) {
+                let fault = &faults[0];
+                let fdoc = Doc::build_opts(&froot, &records, &faults, opts);
+                let mut labels = vec![format!("fault:{}", fault.name), format!("at:{}", fdoc.objs[fault.obj].class)];
+                if warns {
+                    labels.push("with-warning".into());
+                }
+                if faults.len() > 1 {
+                    labels.push(format!("planted{}", faults.len()));
+                }
+                let cli = if warns { k % 6 == 0 } else { k % 18 == 0 };
                 let mut args = tables_of(&fdoc);
-                args.push(fault_sexp(&fdoc, &fault, cli));
+                args.push(fault_sexp(&fdoc, fault, cli));
+                args.push(also_sexp(&fdoc, &faults));
                 let mut l2 = labels.clone();
                 if cli {
                     l2.push("cli".into());
@@ -352,10 +474,14 @@ fn decode_doc(args: &[Sexp]) -> (ledger::Tables, Doc) {
 fn ledger_oracle(tm: &TypeMap, args: &[Sexp]) -> Sexp {
     let (_t, doc) = decode_doc(args);
     let fates = args.iter().find_map(|a| a.as_node().filter(|(t, _)| *t == "fates").map(|(_, xs)| xs.to_vec())).unwrap_or_default();
-    let (tr, flags) = ledger::translate_with_flags(tm, &doc.src, Mode::Generate);
-    if !tr.accepted() {
+    let (tr, flags, lib_has_error) = ledger::translate_with_flags_checked(tm, &doc.src, Mode::Generate);
+    if let Some(m) = ledger::has_error_mismatch(&tr, lib_has_error) {
+        return fail(m);
+    }
+    if !ledger::lib_accepted(&tr, lib_has_error) {
         return fail(format!("clean document not accepted: {:?}", tr.diags.iter().map(|d| d.message.clone()).collect::<Vec<_>>()));
     }
+    let n_warnings = tr.diags.iter().filter(|d| !d.is_error).count();
     let ui = match xml::parse(tr.ui.as_ref().unwrap()) {
         Ok(u) => u,
         Err(e) => return fail(format!("ui not well-formed: {e}")),
@@ -364,7 +490,7 @@ fn ledger_oracle(tm: &TypeMap, args: &[Sexp]) -> Sexp {
     let mut expected_props: std::collections::BTreeMap<String, BTreeSet<String>> = Default::default();
     let mut expected_updates: BTreeSet<String> = BTreeSet::new();
     let mut expected_ons: BTreeSet<String> = BTreeSet::new();
-    let (mut n_const, mut n_dyn, mut n_cb, mut n_rep, mut n_pseudo) = (0, 0, 0, 0, 0);
+    let (mut n_const, mut n_dyn, mut n_cb, mut n_rep, mut n_pseudo, mut n_hdr) = (0, 0, 0, 0, 0, 0);
     // bindings found in neither output although the document was accepted without a diagnostic (reported last, so that
     // any other imbalance of the same document is reported first)
     let mut neither: Vec<String> = vec![];
@@ -393,6 +519,24 @@ fn ledger_oracle(tm: &TypeMap, args: &[Sexp]) -> Sexp {
             "const" => {
                 n_const += 1;
                 let (tag, text) = (l[2].as_str().unwrap(), l[3].as_str().unwrap());
+                if tag == "header-const" {
+                    // constant, but excluded from the .ui and never evaluated: the support header must set it
+                    let Some((top, _)) = &names else {
+                        return fail(format!("header-only constant {what} has no header name"));
+                    };
+                    if !scan.update_fns.contains(top) {
+                        return fail(format!("header-only constant {what}: no update{top}() in the header"));
+                    }
+                    if found.is_some() {
+                        return fail(format!("header-only constant {what} also shows in the .ui"));
+                    }
+                    if ec != Some(false) {
+                        return fail(format!("header-only constant {what}: evaluated-constant flag is {ec:?}"));
+                    }
+                    expected_updates.insert(top.clone());
+                    n_hdr += 1;
+                    continue;
+                }
                 if tag == "separator" && text == "false" {
                     // cannot be a value of the .ui (`separator` is no Q_PROPERTY): it takes effect iff the header sets it
                     match &names {
@@ -532,7 +676,19 @@ fn ledger_oracle(tm: &TypeMap, args: &[Sexp]) -> Sexp {
             neither.len()
         ));
     }
-    node("ok", vec![atom("const"), num(n_const), atom("dynamic"), num(n_dyn), atom("callbacks"), num(n_cb), atom("repeated"), num(n_rep), atom("pseudo"), num(n_pseudo)])
+    // a sample through the real CLI: a clean document (possibly with warnings) exits 0 and its outputs are the in-process ones
+    let cli = args.iter().find_map(|a| a.as_node().filter(|(t, _)| *t == "cli").and_then(|(_, xs)| xs[0].as_bool())).unwrap_or(false);
+    let mut cli_runs = 0;
+    if cli {
+        if let Err(e) = cli_clean_check(&doc.src, tr.ui.as_ref().unwrap(), tr.header.as_ref().unwrap(), n_warnings) {
+            return fail(format!("clean document with {n_warnings} warning(s): CLI: {e}"));
+        }
+        cli_runs = 1;
+    }
+    node(
+        "ok",
+        vec![atom("const"), num(n_const), atom("dynamic"), num(n_dyn), atom("callbacks"), num(n_cb), atom("repeated"), num(n_rep), atom("pseudo"), num(n_pseudo), atom("header-const"), num(n_hdr), atom("warnings"), num(n_warnings), atom("cli"), num(cli_runs)],
+    )
 }
 
 pub struct FaultInfo {
@@ -557,28 +713,115 @@ pub fn decode_fault(args: &[Sexp]) -> FaultInfo {
 fn fault_oracle(tm: &TypeMap, args: &[Sexp]) -> Sexp {
     let t = ledger::decode_tables(args);
     let f = decode_fault(args);
-    let tr = env::translate(tm, &t.src, "MyType", Mode::Generate);
+    let also: Vec<(usize, usize, String)> = args
+        .iter()
+        .find_map(|a| a.as_node().filter(|(t, _)| *t == "also").map(|(_, xs)| xs.to_vec()))
+        .unwrap_or_default()
+        .iter()
+        .map(|x| {
+            let l = x.as_list().unwrap();
+            (l[0].as_usize().unwrap(), l[1].as_usize().unwrap(), l[2].as_str().unwrap().to_owned())
+        })
+        .collect();
+    let (tr, lib_has_error) = ledger::translate_checked(tm, &t.src, Mode::Generate);
     if tr.syntax_errors > 0 {
         return fail("syntax error in generated document".into());
     }
-    let inside: Vec<&env::Diag> = tr.diags.iter().filter(|d| d.is_error && f.range.0 <= d.start && d.end <= f.range.1).collect();
-    if inside.is_empty() {
-        return fail(format!("fault {}: no error diagnostic inside {:?}; diagnostics: {:?}", f.name, f.range, tr.diags.iter().map(|d| format!("{}..{} {}", d.start, d.end, d.message)).collect::<Vec<_>>()));
+    let n_warnings = tr.diags.iter().filter(|d| !d.is_error).count();
+    // every planted binding must be diagnosed inside its own text
+    let mut n_inside = 0;
+    let mut planted = vec![(f.range.0, f.range.1, f.message.clone())];
+    planted.extend(also);
+    // failures of a known class are reported last
+    let mut anchored_elsewhere: Option<String> = None;
+    for (k, (s, e, message)) in planted.iter().enumerate() {
+        let inside: Vec<&env::Diag> = tr.diags.iter().filter(|d| d.is_error && *s <= d.start && d.end <= *e).collect();
+        if inside.is_empty() {
+            // is the expected error anchored at another member of the same group of the same object?
+            let me = t.binds.iter().find(|b| b.3 == *s && b.4 == *e);
+            let sibling = me.and_then(|me| {
+                t.binds.iter().filter(|b| b.0 != me.0 && b.1 == me.1 && b.5 == me.5 && b.2.contains('.')).find(|b| tr.diags.iter().any(|d| d.is_error && d.message.contains(message) && b.3 <= d.start && d.end <= b.4))
+            });
+            if let (Some(me), Some(sib)) = (me, sibling) {
+                anchored_elsewhere = Some(format!("fault {}: the error '{message}' for '{}' is anchored inside another member of the same group ('{}'), not inside the faulty binding", f.name, me.2, sib.2));
+                continue;
+            }
+            return fail(format!("fault {} (planted binding {k}): no error diagnostic inside {:?}; diagnostics: {:?}", f.name, (s, e), tr.diags.iter().map(|d| format!("{}..{} {}", d.start, d.end, d.message)).collect::<Vec<_>>()));
+        }
+        if !inside.iter().any(|d| d.message.contains(message)) {
+            return fail(format!("fault {} (planted binding {k}): expected message '{message}', got {:?}", f.name, inside.iter().map(|d| d.message.clone()).collect::<Vec<_>>()));
+        }
+        n_inside += inside.len();
     }
-    if !inside.iter().any(|d| d.message.contains(&f.message)) {
-        return fail(format!("fault {}: expected message '{}', got {:?}", f.name, f.message, inside.iter().map(|d| d.message.clone()).collect::<Vec<_>>()));
+    if let Some(m) = ledger::has_error_mismatch(&tr, lib_has_error) {
+        return fail(format!("fault {}: {m}", f.name));
     }
-    if tr.accepted() {
+    if ledger::lib_accepted(&tr, lib_has_error) {
         return fail(format!("fault {}: document accepted", f.name));
+    }
+    // the set of diagnostics does not depend on the iteration order of the maps: a second run reports the same
+    let key = |t: &env::Translation| {
+        let mut v: Vec<(bool, usize, usize, String)> = t.diags.iter().map(|d| (d.is_error, d.start, d.end, d.message.clone())).collect();
+        v.sort();
+        v
+    };
+    let (tr2, _) = ledger::translate_checked(tm, &t.src, Mode::Generate);
+    if key(&tr) != key(&tr2) {
+        return fail(format!("fault {}: two runs report different diagnostics", f.name));
     }
     let mut cli_runs = 0;
     if f.cli {
         if let Err(e) = cli_check(&t.src) {
-            return fail(format!("fault {}: CLI: {e}", f.name));
+            return fail(format!("fault {} (document with {n_warnings} warning(s)): CLI: {e}", f.name));
         }
         cli_runs = 1;
     }
-    node("ok", vec![atom("errors-inside"), num(inside.len()), atom("cli"), num(cli_runs)])
+    if let Some(m) = anchored_elsewhere {
+        return fail(m);
+    }
+    node("ok", vec![atom("errors-inside"), num(n_inside), atom("planted"), num(planted.len()), atom("warnings"), num(n_warnings), atom("cli"), num(cli_runs)])
+}
+
+/// Runs the real CLI on a clean document `MyType.qml` (with a stale `mytype.ui`): exit status 0, both outputs written and
+/// byte-identical to the in-process outputs, warnings (if any) printed.
+fn cli_clean_check(src: &str, ui: &str, header: &str, n_warnings: usize) -> Result<(), String> {
+    use std::fs;
+    use std::process::Command;
+    let bin = env::cli_binary();
+    let dir = tempfile::Builder::new().prefix("qv-c04-").tempdir_in(std::env::temp_dir()).map_err(|e| e.to_string())?;
+    let p = dir.path();
+    fs::write(p.join("MyType.qml"), src).map_err(|e| e.to_string())?;
+    fs::write(p.join("mytype.ui"), "STALE UI\n").map_err(|e| e.to_string())?;
+    let out = Command::new(&bin)
+        .current_dir(p)
+        .arg("generate-ui")
+        .arg("--foreign-types")
+        .arg(format!("{}/contrib/metatypes", env::REPO))
+        .arg("MyType.qml")
+        .env("NO_COLOR", "1")
+        .output()
+        .map_err(|e| format!("cannot run {}: {e}", bin.display()))?;
+    let stderr = String::from_utf8_lossy(&out.stderr).into_owned();
+    let res = (|| {
+        if out.status.code() != Some(0) {
+            return Err(format!("exit status {:?}, stderr: {}", out.status.code(), stderr.chars().take(400).collect::<String>()));
+        }
+        if fs::read_to_string(p.join("mytype.ui")).map_err(|e| format!("mytype.ui: {e}"))? != ui {
+            return Err("mytype.ui differs from the in-process .ui".into());
+        }
+        if fs::read_to_string(p.join("uisupport_mytype.h")).map_err(|e| format!("uisupport_mytype.h: {e}"))? != header {
+            return Err("uisupport_mytype.h differs from the in-process header".into());
+        }
+        if stderr.matches("warning: ").count() != n_warnings {
+            return Err(format!("{} warning(s) printed, {n_warnings} recorded in-process", stderr.matches("warning: ").count()));
+        }
+        if stderr.contains("error: ") {
+            return Err("an error was printed for a clean document".into());
+        }
+        Ok(())
+    })();
+    drop(dir);
+    res
 }
 
 /// Runs the real CLI on [Good.qml, Faulty.qml] with pre-existing outputs of the faulty source: exit status 1, the
@@ -591,7 +834,8 @@ fn cli_check(faulty_src: &str) -> Result<(), String> {
     let p = dir.path();
     let good = "import qmluic.QtWidgets\n\nQWidget {\n    QLabel { id: hello; text: \"hello\" }\n}\n";
     fs::write(p.join("Good.qml"), good).map_err(|e| e.to_string())?;
-    fs::write(p.join("Other.qml"), good).map_err(|e| e.to_string())?;
+    // a valid source with a WARNING only (versioned import): still written
+    fs::write(p.join("Other.qml"), good.replace("import qmluic.QtWidgets\n", "import qmluic.QtWidgets 6.2\n")).map_err(|e| e.to_string())?;
     fs::write(p.join("Faulty.qml"), faulty_src).map_err(|e| e.to_string())?;
     // pre-existing outputs of the faulty source (one of the two, so that both "not created" and "not modified" are seen)
     fs::write(p.join("faulty.ui"), "STALE UI\n").map_err(|e| e.to_string())?;
@@ -658,6 +902,67 @@ fn witness_request(name: &str) -> Sexp {
             let mut args = tables_of(&doc);
             args.push(fates_sexp(&doc));
             node("c04-ledger", args)
+        }
+        // F44: the error for a dynamic member of a nested object map is anchored at the first member of the group
+        "nested-dynamic-anchor" | "warning-plus-error" | "nested-handlers" | "header-const" => {
+            let mk = |lhs: &str, rhs: &str, spec: LeafSpec, message: &'static str| Fault { name: "witness", obj: 2, lhs: lhs.into(), rhs: rhs.into(), spec, map_fault: false, att_fault: false, att_unresolved: false, unknown_type: false, message, reported: (true, true, true) };
+            let view = Obj::new("QTableView").with_id("t").bind("horizontalHeader.defaultSectionSize", "50");
+            let check = Obj::new("QCheckBox").with_id("srcCheck");
+            match name {
+                "nested-dynamic-anchor" => {
+                    let mut f = mk("horizontalHeader.visible", "srcCheck.checked", LeafSpec { konst: Konst::Dyn, ..LeafSpec::default() }, "nested dynamic binding is not supported");
+                    f.name = "dynamic-header-member";
+                    let r = root(vec![check, view.bind("horizontalHeader.visible", "srcCheck.checked")]);
+                    let doc = Doc::build(&r, &[], std::slice::from_ref(&f));
+                    let mut args = tables_of(&doc);
+                    args.push(fault_sexp(&doc, &f, false));
+                    node("c04-fault", args)
+                }
+                // class (a): a WARNING (versioned import, return type annotation) next to an error; through the real CLI
+                "warning-plus-error" => {
+                    let mut f = mk("noSuchProperty", "1", LeafSpec { enters: false, ..LeafSpec::default() }, "unknown property of class");
+                    f.name = "unknown-property";
+                    let b = Obj::new("QPushButton").with_id("b").bind("onClicked", "function(c: bool): void { srcCheck.checked = c }").bind("noSuchProperty", "1");
+                    let r = root(vec![check, b]);
+                    let doc = Doc::build_opts(&r, &[], std::slice::from_ref(&f), DocOpts { import_version: true });
+                    let mut args = tables_of(&doc);
+                    args.push(fault_sexp(&doc, &f, true));
+                    node("c04-fault", args)
+                }
+                // class (d): several handlers inside one nested object map: every one is diagnosed
+                "nested-handlers" => {
+                    let spec = LeafSpec { enters: false, konst: Konst::Dyn, ..LeafSpec::default() };
+                    let hs = [("horizontalHeader.onSectionClicked", "function(i: int) {}"), ("horizontalHeader.onSectionDoubleClicked", "srcCheck.toggle()"), ("horizontalHeader.onGeometriesChanged", "{ srcCheck.toggle() }")];
+                    let mut v = view;
+                    let mut fs = vec![];
+                    for (l, r) in hs {
+                        v = v.bind(l, r);
+                        let mut f = mk(l, r, spec.clone(), "attached/nested/gadget callback is not supported");
+                        f.name = "handler-in-object-map";
+                        fs.push(f);
+                    }
+                    let r = root(vec![check, v]);
+                    let doc = Doc::build(&r, &[], &fs);
+                    let mut args = tables_of(&doc);
+                    args.push(fault_sexp(&doc, &fs[0], false));
+                    args.push(also_sexp(&doc, &fs));
+                    node("c04-fault", args)
+                }
+                // class (c): a constant only the header can set; the ledger balances
+                _ => {
+                    let a = Obj::new("QAction").with_id("a").bind("text", "\"whatever\"").bind("separator", "true");
+                    let r = root(vec![a]);
+                    let recs = vec![
+                        Record { object: "a".into(), lhs: "text".into(), fate: Fate::Const { tag: "string-notr".into(), text: "whatever".into() } },
+                        Record { object: "a".into(), lhs: "separator".into(), fate: Fate::Const { tag: "header-const".into(), text: "true".into() } },
+                    ];
+                    let doc = Doc::build(&r, &recs, &[]);
+                    let mut args = tables_of(&doc);
+                    args.push(fates_sexp(&doc));
+                    args.push(node("cli", vec![boolean(true)]));
+                    node("c04-ledger", args)
+                }
+            }
         }
         "separator-alone" => Doc::build(&root(vec![Obj::new("QAction").with_id("a").bind("separator", "true")]), &[], &[]).request(Mode::Omit),
         _ => node("bad-request", vec![]),
